@@ -22,7 +22,7 @@ ASSUMPTIONS = [
     "cron recurrence not exercised (croniter absent); recurrence via deferred_by",
 ]
 EVAL_COUNTER = "deliveries_judged"
-REQUIRED = ["deliveries_judged", "exp_ack", "exp_nack", "exp_retry", "exp_reschedule", "exp_eager", "sentinels_acked", "cells_with_unencodable_return"]
+REQUIRED = ["deliveries_judged", "exp_ack", "exp_nack", "exp_retry", "exp_reschedule", "exp_eager", "sentinels_acked", "cells_with_unencodable_return", "runs_on_the_default_connection"]
 CASE_TIMEOUT = 120
 
 EAGER = ("ack", "nack", "reject", "retry", "force_retry", "reschedule")
@@ -193,7 +193,10 @@ async def scenario(loop, case, out, stats, fps, samples):
     from rv.wl import World, run_worker
 
     kind = case["kind"]
-    w = World(loop, kind, converter=case["conv"], seed=case["seed"], latency=None if kind == "mem" else 0.001)
+    # every fourth run: nobody is handed the connection, jobs and the worker find it through Repid's default-connection mechanism
+    magic = case["seed"] % 4 == 0
+    stats["runs_on_the_default_connection" if magic else "runs_with_explicit_connection"] += 1
+    w = World(loop, kind, converter=case["conv"], seed=case["seed"], latency=None if kind == "mem" else 0.001, magic=magic)
     try:
         await w.open()
         step = 0.0 if case.get("zero_backoff") else POLICY_STEP
